@@ -62,7 +62,7 @@ def _rels(docs, part):
     return out
 
 
-def _opc_common(names, docs, main_part):
+def _opc_common(names, docs, main_part, absent=()):
     _need("[Content_Types].xml" in docs and "_rels/.rels" in docs, "missing OPC infrastructure")
     ct = docs["[Content_Types].xml"]
     defaults = {d.get("Extension") for d in ct.findall(NS_CT + "Default")}
@@ -81,14 +81,16 @@ def _opc_common(names, docs, main_part):
         if n.endswith(".rels"):
             continue
         for rid, (ty, t) in _rels(docs, n).items():
-            _need(t in names, "%s: relationship %s targets missing part %s" % (n, rid, t))
+            _need(t in names or t in absent, "%s: relationship %s targets missing part %s" % (n, rid, t))
 
 
-def audit_xlsx(path, members, declared=None, cells=None):
+def audit_xlsx(path, members, declared=None, cells=None, absent=()):
     """declared: expected list of (sheet name, part name) in workbook order.
     cells: per declared sheet, sorted list of 'REF=kind=content'."""
     z, names, docs = _open(path, members)
-    _opc_common(names, docs, "xl/workbook.xml")
+    _opc_common(names, docs, "xl/workbook.xml", absent)
+    for a in absent:
+        _need(a not in names, "%s should be absent from the archive" % a)
     wb = docs["xl/workbook.xml"]
     rels = _rels(docs, "xl/workbook.xml")
     got = []
@@ -133,10 +135,12 @@ def audit_xlsx(path, members, declared=None, cells=None):
     return True
 
 
-def audit_pptx(path, members, declared=None):
+def audit_pptx(path, members, declared=None, absent=()):
     """declared: expected list of (part name, token) in slide-list order."""
     z, names, docs = _open(path, members)
-    _opc_common(names, docs, "ppt/presentation.xml")
+    _opc_common(names, docs, "ppt/presentation.xml", absent)
+    for a in absent:
+        _need(a not in names, "%s should be absent from the archive" % a)
     pr = docs["ppt/presentation.xml"]
     rels = _rels(docs, "ppt/presentation.xml")
     got = []
@@ -147,6 +151,9 @@ def audit_pptx(path, members, declared=None):
         _need(int(sld.get("id")) >= 256 and sld.get("id") not in ids, "bad or duplicate sldId id")
         ids.add(sld.get("id"))
         part = rels[rid][1]
+        if part in absent:
+            got.append((part, None))
+            continue
         text = " ".join(t.text or "" for t in docs[part].iter(NS_A + "t"))
         lay = [t for (ty, t) in _rels(docs, part).values() if ty.endswith("/slideLayout")]
         _need(len(lay) == 1, "%s has no slide layout relationship" % part)
@@ -156,11 +163,11 @@ def audit_pptx(path, members, declared=None):
     if declared is not None:
         _need([p for p, _ in got] == [p for p, _ in declared], "declared slides %r, wanted %r" % (got, declared))
         for (p, text), (_, tok) in zip(got, declared):
-            _need(tok in text, "%s does not carry %s" % (p, tok))
+            _need(text is None or tok in text, "%s does not carry %s" % (p, tok))
     return True
 
 
-def audit_epub(path, members, declared=None):
+def audit_epub(path, members, declared=None, absent=()):
     """declared: expected list of (member name, token) in spine order."""
     z, names, docs = _open(path, members)
     _need(names[0] == "mimetype", "mimetype is not the first member")
@@ -178,7 +185,7 @@ def audit_epub(path, members, declared=None):
         href = it.get("href")
         _need(" " not in href, "unencoded space in href")
         member = posixpath.normpath(posixpath.join(base, urllib.parse.unquote(href)))
-        _need(member in names, "manifest item %s -> missing member %s" % (it.get("id"), member))
+        _need(member in names or member in absent, "manifest item %s -> missing member %s" % (it.get("id"), member))
         man[it.get("id")] = (member, it.get("media-type"), it.get("properties") or "")
     _need(len({m for m, _, _ in man.values()}) == len(man), "two manifest items share a resource")
     spine = opf.find(NS_OPF + "spine")
@@ -189,6 +196,10 @@ def audit_epub(path, members, declared=None):
         refs.add(ir.get("idref"))
         member = man[ir.get("idref")][0]
         _need(man[ir.get("idref")][1] == "application/xhtml+xml", "spine item is not XHTML")
+        if member in absent:
+            _need(member not in names, "%s should be absent from the archive" % member)
+            got.append((member, None))
+            continue
         text = " ".join(t.strip() for t in docs[member].find(NS_XHTML + "body").itertext())
         got.append((member, text))
     ver = opf.get("version")
@@ -209,5 +220,5 @@ def audit_epub(path, members, declared=None):
     if declared is not None:
         _need([m for m, _ in got] == [m for m, _ in declared], "spine %r, wanted %r" % (got, declared))
         for (m, text), (_, tok) in zip(got, declared):
-            _need(tok in text, "%s does not carry %s" % (m, tok))
+            _need(text is None or tok in text, "%s does not carry %s" % (m, tok))
     return True
